@@ -153,7 +153,7 @@ pub fn c19_search_eq_l4() {
     search_eq::<4>();
 }
 
-// @verif prop=C19 tier=thorough fl=f2 role=search-by t=3600 mem=24
+// @verif prop=C19 tier=thorough fl=f2 role=search-by t=3600 mem=16
 #[cfg_attr(kani, kani::proof)]
 #[cfg_attr(kani, kani::unwind(10))]
 pub fn c19_search_by_l6() {
